@@ -21,7 +21,8 @@ EXPLANATION = (
     "on cancel / finish-and-no-unit / main scheduler TERMINATED and always schedule a popped unit.  R7: join and "
     "finalize request finish, then join the main scheduler's ULT, then the native thread; the stream is marked "
     "TERMINATED after the root loop.  R8: check_events maps JOIN to finish and CANCEL to exit.  Whether user-defined "
-    "schedulers honour ABT_sched_has_to_stop is not decided.")
+    "schedulers honour ABT_sched_has_to_stop is not decided."
+    ' R9 (control dependence): every pool of a scheduler is retained when the scheduler is created and released when it is freed, for every element of the pool array and independent of anything but the pool being there (ABTI_sched_has_unit trusts num_scheds == 1).')
 DECLINED = ["that user-defined schedulers honour ABT_sched_has_to_stop / keep popping",
             "numeric value of the counter over histories (only per-path balance and ordering)"]
 ASSUMPTIONS = ["C02/C11: each switch primitive runs exactly the callback it passes"]
